@@ -20,7 +20,7 @@ LEVEL = 'fault_enumeration'
 RULE = ('Runs are (a) fault-free swarm configurations (stub binary / stub ternary 1-3 phases / real Al-Zr, Ni-Cr-Al, Al-Mg-Si; all site types, shapes, '
         'volume specifications, grids, constraint switches, both iterators, 1-4 solve calls, compositions inside/at the edge/outside the two-phase region), '
         '(b) enumeration: for each fixed workload one run per backend-call index k=1..Kmax with a single "no result" at call k and one with a burst of 3, '
-        '(c) seeded fault sequences (rate 0.5-20%, bursts). Non-trivial = at least 5 accepted steps and, in fault modes, at least one fault fired; '
+        '(c) seeded fault sequences (rate 0.5-20%, bursts). Shapes include aspect ratio exactly 1 and a radius-dependent aspect-ratio function; configurations as in C01 (floors, constraints, zero grain-boundary energy). Non-trivial = at least 5 accepted steps and, in fault modes, at least one fault fired; '
         'distinct = distinct record digest; signature = (mode, backend, phases, events: nucleation, grid extend/re-mesh, fallback taken, clamp, dissolution).')
 ASSUMPTIONS = ['Admissible configurations: grain-boundary energy ratio below each site type\'s limit, GB sites with spherical shape, admissible PBM class counts, positive volumes/energies.',
                'A backend fault is injected only after that query succeeded once for that phase (transient failure with a last valid value); first-call failures are counted separately and never reported as violations.',
